@@ -192,6 +192,21 @@ func registerSync(e *Engine) {
 	in["sync/atomic.LoadPointer"] = func(r *Run, g *Goroutine, fv *FuncV, a []Value, retTo func(Value)) (Value, bool) {
 		return r.load(a[0].(PtrV)), true
 	}
+	in["sync/atomic.SwapPointer"] = func(r *Run, g *Goroutine, fv *FuncV, a []Value, retTo func(Value)) (Value, bool) {
+		r.raceAcquire(g, akey{keyOf(a[0].(PtrV))})
+		r.raceRelease(g, akey{keyOf(a[0].(PtrV))})
+		old := r.load(a[0].(PtrV))
+		r.store(a[0].(PtrV), a[1])
+		return old, true
+	}
+	in["sync/atomic.CompareAndSwapPointer"] = func(r *Run, g *Goroutine, fv *FuncV, a []Value, retTo func(Value)) (Value, bool) {
+		cur := r.load(a[0].(PtrV)).(PtrV)
+		if cur.same(a[1].(PtrV)) {
+			r.store(a[0].(PtrV), a[2])
+			return r.ctx.Bool(true), true
+		}
+		return r.ctx.Bool(false), true
+	}
 	in["sync/atomic.StorePointer"] = func(r *Run, g *Goroutine, fv *FuncV, a []Value, retTo func(Value)) (Value, bool) {
 		r.store(a[0].(PtrV), a[1])
 		return nil, true
